@@ -34,17 +34,19 @@ def unq(s):
 
 def match(ck, kind, pname, knob, cls, src):
     for k in ck.known:
-        mt = k.get("match", {})
-        if mt.get("kind") != kind:
-            continue
-        if mt.get("pass_regex") and not re.search(mt["pass_regex"], pname):
-            continue
-        if mt.get("knob_regex") and not re.search(mt["knob_regex"], knob):
-            continue
-        if mt.get("source") and mt["source"] != src:
-            continue
-        if re.search(mt.get("class_regex", ".*"), cls):
-            return k["id"]
+        top = k.get("match", {})
+        # a finding may list alternative shapes (e.g. one for generated programs, one per recorded witness)
+        for mt in top.get("alternatives", [top]):
+            if mt.get("kind") != kind:
+                continue
+            if mt.get("pass_regex") and not re.search(mt["pass_regex"], pname):
+                continue
+            if mt.get("knob_regex") and not re.search(mt["knob_regex"], knob):
+                continue
+            if mt.get("source") and mt["source"] != src:
+                continue
+            if re.search(mt.get("class_regex", ".*"), cls):
+                return k["id"]
     return None
 
 
@@ -132,10 +134,12 @@ def run(ck):
                               "executing the module before and after the pass (Lean Core-IR interpreter) on the same input gives different results"))
             for kind, cls, how in viols:
                 fid = match(ck, kind, pname, knob, cls, origin)
-                key = (kind, pname, cls, knob)
+                # one report per (kind, pass, class) for generated programs; witnesses are reported individually
+                key = (kind, pname, cls, knob, origin if origin.startswith("witness:") else "")
                 if fid is None and key in reported:
                     continue
-                reported.add(key)
+                if fid is None:
+                    reported.add(key)
                 ck.violation({"kind": kind, "finding": fid, "pass": pname, "class": cls, "origin": origin, "knob": knob, "result": r[:1500],
                               "status": st, "wgsl": unq(s[1:-1]), "shrunk": shrunk.get(pname + " " + knob), "how": how}, found_input=True)
             if len(ck.samples) < 3 and semhead == "agree" and origin == "gen":
